@@ -75,7 +75,7 @@ def check_read(case, ctx):
     skel = case["chart"]
     layout = skel["layout"]
     lines = gen.render(skel, order=case["order"], seed=case["seed"])
-    parsed = ref.parse(list(lines), layout)
+    parsed = ref.parse(list(lines), layout, ids_as_spelled=True)
     _self_check(ctx, skel, parsed)
 
     # ---- classes / non-trivial rule -------------------------------------
@@ -121,6 +121,7 @@ def check_read(case, ctx):
             os.unlink(path)
     got = ctx.call("snapshot", gen.snapshot, m)
 
+    ctx.label("lower-case-ids", any(k != k.upper() for k in parsed["samples"]) or bool(parsed["lnobj"] and parsed["lnobj"] != parsed["lnobj"].upper()))
     _compare(ctx, got, parsed, tempo, override0)
 
 
